@@ -51,7 +51,7 @@ def cover : List (String × List Cover) := [
   ("amgcl/backend/builtin.hpp|crs::operator=|ptr", [.thm "Amgcl.C10c.clone_defined", .poison "h_pipeline"]),
   ("amgcl/backend/builtin.hpp|crs::operator=|val", [.thm "Amgcl.C10c.clone_defined", .poison "h_pipeline"]),
   ("amgcl/backend/builtin.hpp|crs::set_nonzeros|col", [.thm "Amgcl.C10c.two_pass_defined", .poison "h_pipeline"]),
-  ("amgcl/backend/builtin.hpp|crs::set_nonzeros|this.col+val", [.poison "h_pipeline"]),
+  ("amgcl/backend/builtin.hpp|crs::set_nonzeros|this.col+val", [.thm "Amgcl.C10d.set_nonzeros_zero_defined", .thm "Amgcl.C10d.transpose_defined", .poison "h_pipeline"]),
   ("amgcl/backend/builtin.hpp|crs::set_nonzeros|val", [.thm "Amgcl.C10c.two_pass_defined", .poison "h_pipeline"]),
   ("amgcl/backend/builtin.hpp|crs::set_size|ptr", [.thm "Amgcl.C10c.two_pass_defined", .poison "h_pipeline"]),
   ("amgcl/backend/builtin.hpp|diagonal|dia", [.thm "Amgcl.C10.diagonal_always_defined", .poison "h_pipeline"]),
@@ -71,7 +71,7 @@ def cover : List (String × List Cover) := [
   ("amgcl/coarsening/smoothed_aggr_emin.hpp|smoothed_aggr_emin::operators|Af.col+val", [.poison "h_pipeline"]),
   ("amgcl/coarsening/smoothed_aggr_emin.hpp|smoothed_aggr_emin::operators|Af.ptr", [.poison "h_pipeline"]),
   ("amgcl/coarsening/tentative_prolongation.hpp|tentative_prolongation|P.col+val", [.thm "Amgcl.C10c.tentative_prolongation_defined", .poison "h_pipeline"]),
-  ("amgcl/coarsening/tentative_prolongation.hpp|tentative_prolongation|P.ptr", [.poison "h_pipeline"]),
+  ("amgcl/coarsening/tentative_prolongation.hpp|tentative_prolongation|P.ptr", [.thm "Amgcl.C10d.tentative_ns_ptr_defined", .poison "h_pipeline"]),
   ("amgcl/coarsening/tentative_prolongation.hpp|tentative_prolongation|P.ptr#2", [.thm "Amgcl.C10c.tentative_prolongation_defined", .poison "h_pipeline"]),
   ("amgcl/detail/spgemm.hpp|spgemm_rmerge|C.col+val", [.poison "h_pipeline"]),
   ("amgcl/detail/spgemm.hpp|spgemm_rmerge|C.ptr", [.poison "h_pipeline"]),
@@ -142,19 +142,19 @@ def cover : List (String × List Cover) := [
   ("amgcl/preconditioner/schur_pressure_correction.hpp|schur_pressure_correction::init|Kuu.col+val", [.poison "h_pipeline"]),
   ("amgcl/preconditioner/schur_pressure_correction.hpp|schur_pressure_correction::init|L", [.poison "h_pipeline"]),
   ("amgcl/relaxation/ilu0.hpp|ilu0::ilu0|D", [.thm "Amgcl.C10c.ilu0_defined", .poison "h_pipeline"]),
-  ("amgcl/relaxation/ilu0.hpp|ilu0::ilu0|L.col+val", [.poison "h_pipeline"]),
-  ("amgcl/relaxation/ilu0.hpp|ilu0::ilu0|L.ptr", [.poison "h_pipeline"]),
-  ("amgcl/relaxation/ilu0.hpp|ilu0::ilu0|U.col+val", [.poison "h_pipeline"]),
-  ("amgcl/relaxation/ilu0.hpp|ilu0::ilu0|U.ptr", [.poison "h_pipeline"]),
+  ("amgcl/relaxation/ilu0.hpp|ilu0::ilu0|L.col+val", [.thm "Amgcl.C10d.ilu0_LU_defined", .poison "h_pipeline"]),
+  ("amgcl/relaxation/ilu0.hpp|ilu0::ilu0|L.ptr", [.thm "Amgcl.C10d.ilu0_LU_defined", .poison "h_pipeline"]),
+  ("amgcl/relaxation/ilu0.hpp|ilu0::ilu0|U.col+val", [.thm "Amgcl.C10d.ilu0_LU_defined", .poison "h_pipeline"]),
+  ("amgcl/relaxation/ilu0.hpp|ilu0::ilu0|U.ptr", [.thm "Amgcl.C10d.ilu0_LU_defined", .poison "h_pipeline"]),
   ("amgcl/relaxation/iluk.hpp|iluk::iluk|D", [.poison "h_pipeline"]),
   ("amgcl/relaxation/ilup.hpp|ilup::ilup|P.val", [.poison "h_pipeline"]),
   ("amgcl/relaxation/ilup.hpp|symb_product|C.col", [.poison "h_pipeline"]),
   ("amgcl/relaxation/ilup.hpp|symb_product|C.ptr", [.poison "h_pipeline"]),
   ("amgcl/relaxation/ilut.hpp|ilut::ilut|D", [.poison "h_pipeline"]),
-  ("amgcl/relaxation/ilut.hpp|ilut::ilut|L.col+val", [.poison "h_pipeline"]),
-  ("amgcl/relaxation/ilut.hpp|ilut::ilut|L.ptr", [.poison "h_pipeline"]),
-  ("amgcl/relaxation/ilut.hpp|ilut::ilut|U.col+val", [.poison "h_pipeline"]),
-  ("amgcl/relaxation/ilut.hpp|ilut::ilut|U.ptr", [.poison "h_pipeline"]),
+  ("amgcl/relaxation/ilut.hpp|ilut::ilut|L.col+val", [.thm "Amgcl.C10d.ilut_LU_defined", .poison "h_pipeline"]),
+  ("amgcl/relaxation/ilut.hpp|ilut::ilut|L.ptr", [.thm "Amgcl.C10d.ilut_LU_defined", .poison "h_pipeline"]),
+  ("amgcl/relaxation/ilut.hpp|ilut::ilut|U.col+val", [.thm "Amgcl.C10d.ilut_LU_defined", .poison "h_pipeline"]),
+  ("amgcl/relaxation/ilut.hpp|ilut::ilut|U.ptr", [.thm "Amgcl.C10d.ilut_LU_defined", .poison "h_pipeline"]),
   ("amgcl/relaxation/spai0.hpp|spai0::spai0|m", [.thm "Amgcl.C10c.spai0_defined", .poison "h_pipeline"])]
 
 def coveredKeys : List String := cover.map (·.1)
